@@ -48,7 +48,7 @@ ASSUMPTIONS = [
     "auxiliary (non-ODX) archive members are outside the property and not compared",
     "behavioural equality is judged on a fixed script: encode every request of every ECU variant with searched parameter values, decode the result, encode/decode the first positive response; results and exception type names must agree",
 ]
-MUST_HIT = ["example", "kind:text", "kind:raw", "kind:bool", "kind:int", "kind:enum", "kind:sub",
+MUST_HIT = ["example", "kind:samename", "samename-entry", "text-with-tab-lf", "kind:text", "kind:raw", "kind:bool", "kind:int", "kind:enum", "kind:sub",
             "kind:sublist", "kind:xhtml", "composed", "entry:load_directory", "entry:load_files",
             "entry:load_pdx_file-permuted", "roundtrip-ok", "behaviour-encoded"]
 
@@ -185,6 +185,19 @@ def _behaviour(db) -> Tuple[list, int]:
     return recs, n_ok
 
 
+def _ws_signature(a: Any, b: Any) -> Optional[str]:
+    """how two strings differ if they differ in white space only: `reindented` = blanks inserted
+    after line breaks (jinja indent() applied to a multi-line text), `attr-normalized` = additionally
+    TAB / LF turned into blanks (XML attribute value normalization), else None"""
+    if not (isinstance(a, str) and isinstance(b, str)) or a == b or not re.search(r"[\t\n]", a):
+        return None
+    if re.sub(r"\n[ ]+", "\n", b) == a:
+        return "reindented"
+    if re.sub(r" +", " ", b) == re.sub(r"[ \t\n]+", " ", a):
+        return "attr-normalized"
+    return None
+
+
 def _struct_failures(db1, db2, case: dict, keyed: bool = False, clause: str = "structural",
                      limit: int = 12) -> List[core.Failure]:
     from vlib.models import dcdiff
@@ -213,7 +226,8 @@ def _struct_failures(db1, db2, case: dict, keyed: bool = False, clause: str = "s
                 fails.append(core.Failure(clause, d.describe(), case,
                                           {"bucket": f"{d.key}|{d.mode}", "key": d.key, "mode": d.mode,
                                            "path": "/".join(f"{c}.{f}" for c, f, _ in d.path),
-                                           "a": dcdiff.short(d.a), "b": dcdiff.short(d.b)}))
+                                           "a": dcdiff.short(d.a), "b": dcdiff.short(d.b),
+                                           "ws": _ws_signature(d.a, d.b)}))
     return fails
 
 
@@ -289,7 +303,8 @@ def evaluate(db1, case: dict, classes: set, perturbed: Optional[List[str]] = Non
                 fails.append(core.Failure("idempotence", f"second write differs in {os.path.splitext(n0)[1]} line "
                                           f"{ln + 1}: {x[:80]!r} -> {y[:80]!r}", case,
                                           {"bucket": f"{tag}|{sk}", "key": tag, "mode": "not-idempotent",
-                                           "with": sk}))
+                                           "with": sk,
+                                           "with_ws": sorted({str(f.features.get("ws")) for f in sf})}))
         except Exception as e:
             fails.append(core.Failure("idempotence", f"second write raised {type(e).__name__}: {str(e)[:200]}", case,
                                       {"bucket": f"{pkey}|rewrite-raises:{type(e).__name__}", "key": pkey,
@@ -325,6 +340,9 @@ def _run_perturb_case(db_name: str, prep, res: Optional[core.ShardResult], extra
     classes = set(extra_classes)
     for sp in prep.applied:
         classes.add(f"kind:{sp['kind']}")
+        v = sp.get("value")
+        if isinstance(v, str) and "\t" in v and "\n" in v:
+            classes.add("text-with-tab-lf")
     if res is not None:
         res.rejected += len(prep.discarded)
         res.accepted += len(prep.applied)
@@ -390,11 +408,26 @@ def _eval_order(case: dict, res: Optional[core.ShardResult]) -> List[core.Failur
     try:
         pp.set_strict(True)
         src = pp.example_path(case["db"])
-        if case["source"] == "written":
+        db0 = None
+        if case.get("perts"):
+            # a perturbed database (two documents sharing their short name): the reference is the
+            # database in memory, every entry point must give it back from the written archive
+            prep = pp.apply_concrete(case["db"], case["perts"])
+            if prep.discarded:
+                return []
+            db0 = prep.db
+            classes.add("samename-entry")
+        elif case["source"] == "written":
             db0 = odxtools.load_pdx_file(src)
+        if db0 is not None:
             src = os.path.join(tmp, "written.pdx")
             write_pdx_file(src, db0)
-        ref = odxtools.load_pdx_file(src)
+        if case.get("perts"):
+            ref = db0
+        else:
+            ref = odxtools.load_pdx_file(src)
+            if db0 is not None:
+                _close_db(db0)
         with zipfile.ZipFile(src) as z:
             names = z.namelist()
             blobs = {n: z.read(n) for n in names}
@@ -450,6 +483,20 @@ def _eval_order(case: dict, res: Optional[core.ShardResult]) -> List[core.Failur
     finally:
         cm.__exit__(None, None, None)
         shutil.rmtree(tmp, ignore_errors=True)
+
+
+def _samename_specs(db_name: str) -> List[dict]:
+    """concrete rename operations: a COMPARAM-SPEC / DIAG-LAYER-CONTAINER takes the short name of a
+    document of another category"""
+    from vlib.models import pdxperturb as pp
+    idx = pp.Index(pp.load_example(db_name))
+    out = []
+    for pt in pp.samename_points(db_name, idx):
+        node = idx.get(pt["cls"], pt["inst"])
+        for op in pp.samename_ops(idx, node)[pt["variant"]]:
+            out.append({"cls": pt["cls"], "field": "short_name", "inst": pt["inst"], "kind": "samename", **op})
+    _close_db(idx.db)
+    return out
 
 
 def replay(case) -> list:
@@ -531,6 +578,18 @@ def run_shard(spec, seed, tier):
         for entry in extra_databases(tier, seed):
             res.failures += _filter_known(_eval_extra(entry, res), kf, res)
             n += 1
+        # two documents of different category with the same short name, through every entry point,
+        # members in archive order and reversed (quick: one seed-chosen rename, thorough: all)
+        specs = _samename_specs("somersault")
+        if tier == "quick":
+            specs = [specs[random.Random(seed).randrange(len(specs))]]
+        for sp in specs:
+            for entry in ENTRIES:
+                for perm in ([0, 1, 2, 3, 4, 5, 6], [6, 5, 4, 3, 2, 1, 0]):
+                    c = {"kind": "order", "db": "somersault", "source": "written", "entry": entry, "perm": perm,
+                         "odx_last": True, "perts": [sp]}
+                    res.failures += _filter_known(_eval_order(core.plain(c), res), kf, res)
+                    n += 1
         res.stages["examples"] = n
         return res
 
@@ -616,6 +675,7 @@ def run_shard(spec, seed, tier):
     if what == "order":
         from hypothesis import strategies as st
         n = 8 if tier == "quick" else 60
+        sn = _samename_specs("somersault")
         strat = st.fixed_dictionaries({
             "kind": st.just("order"),
             "db": st.sampled_from(sorted(pp.EXAMPLES)),
@@ -623,6 +683,7 @@ def run_shard(spec, seed, tier):
             "entry": st.sampled_from(ENTRIES),
             "perm": st.permutations(list(range(7))),
             "odx_last": st.booleans(),
+            "perts": st.one_of(st.none(), st.none(), st.sampled_from(sn).map(lambda x: [x])),
         })
 
         def body(c):
